@@ -327,11 +327,15 @@ func (t *Table) Diff(old Table) {
 			old.Columns[j].Action = MigrateRemoveAction
 			t.AddColumn(old.Columns[j])
 
-			if j == 0 {
-				t.swapOrder(old.Columns[j].Name, len(t.Columns)-1, 0)
-			} else if newID, ok := old.columnIndexes[old.Columns[j-1].Name]; ok {
-				t.swapOrder(old.Columns[j].Name, len(t.Columns)-1, newID+1)
+			// place it right after its nearest old predecessor, at that column's position in the merged list
+			prevID := -1
+			for k := j - 1; k >= 0; k-- {
+				if old.Columns[k].Action != MigrateNoAction {
+					prevID = t.getIndexColumn(old.Columns[k].Name)
+					break
+				}
 			}
+			t.swapOrder(old.Columns[j].Name, len(t.Columns)-1, prevID+1)
 		}
 	}
 
